@@ -8,8 +8,11 @@ from gen import extract_facts
 generate_facts = extract_facts.generate
 
 ID = "C09"
-LEAN_MODULES = ["Econf.Props.C09", "Econf.Props.Struct", "Econf.Props.Tie"]
-THEOREMS = ["Econf.strtoCore_render", "Econf.C09_int32", "Econf.C09_int64", "Econf.C09_uint32", "Econf.C09_uint64", "Econf.C09_bool", "Econf.C09_novalue", "Econf.Struct.C08_formats", "Econf.Struct.tie_bool_words"]
+LEAN_MODULES = ["Econf.Props.C09", "Econf.Props.Struct", "Econf.Props.Tie", "Econf.Props.Leaf"]
+THEOREMS = ["Econf.strtoCore_render", "Econf.C09_int32", "Econf.C09_int64", "Econf.C09_uint32", "Econf.C09_uint64", "Econf.C09_bool", "Econf.C09_novalue", "Econf.Struct.C08_formats", "Econf.Struct.tie_bool_words",
+            "Leaf.C_toLowerCase", "Leaf.lw_eq"]
+# string helpers translated from the C source on every run (gen/c2lean.py); theorems in lean/Econf/Props/Leaf.lean
+LEAF_FNS = ["toLowerCase"]
 RULE = ("integer literals (sign x {decimal, octal, hexadecimal}) at every type limit +-2, with 33..65-bit magnitudes and random "
         "1..25-digit literals, read with all four integer getters and compared with the mathematical value; decimal floating "
         "literals compared bit-exactly with correct rounding computed in exact rational arithmetic; booleans: all strings up to the "
